@@ -54,8 +54,8 @@ def write_replay(prop, idx, entry, extra):
     p = os.path.join(d, "%02d_%s.json" % (idx, safe))
     body = {"property": prop, "obligation": entry["name"], "engine": entry.get("engine"), "kind": entry.get("kind"),
             "tags": entry.get("tags"), "clause": entry.get("clause"), "exit_in_repo": entry.get("exit"),
-            "verifier_output": entry.get("rendered"), "counterexample": entry.get("counterexample"),
-            "replay": entry.get("replay_note", "no-failing-input-found: the verifier gave no concrete input; "
+            "verifier_output": entry.get("rendered"), "counterexample": entry.get("counterexample"), "harness": entry.get("harness"),
+            "replay": ("concrete counterexample attached (Kani concrete playback): the unit test under `counterexample.unit_test` feeds these bytes to the harness; `bin/check %s --replay <this file>` re-runs exactly this harness on the current tree" % prop) if entry.get("counterexample") else entry.get("replay_note", "no-failing-input-found: the verifier gave no concrete input; "
                                 "re-run `bin/check %s --replay <this file>` to re-check this obligation against the current tree" % prop)}
     body.update(extra)
     json.dump(body, open(p, "w"), indent=1)
@@ -109,14 +109,16 @@ def main(argv):
     solver_ms = 0
     cmds = []
     only = None
+    only_harness = None
     if replay:
         rj = json.load(open(replay))
         only = rj["obligation"]
+        only_harness = rj.get("harness")
         print("replaying obligation %s against the current tree" % only)
 
     # ---------------- Verus units ----------------
     from concurrent.futures import ThreadPoolExecutor
-    units = pr.get("verus_units", [])
+    units = pr.get("verus_units", []) if not only_harness else []
 
     def do_unit(u):
         try:
@@ -172,7 +174,7 @@ def main(argv):
     kres = None
     if pr.get("kani_groups"):
         try:
-            kres = kanilib.run_groups(prop, pr["kani_groups"], tier, os.path.join(work, "kani"))
+            kres = kanilib.run_groups(prop, pr["kani_groups"], tier if not only_harness else "thorough", os.path.join(work, "kani"), only_harness=only_harness)
         except vxlib.Infra as e:
             infra.append("[kani] %s" % e)
         if kres:
@@ -191,7 +193,7 @@ def main(argv):
 
     # ---------------- type-level probes (C16) ----------------
     tres = None
-    if pr.get("type_probes"):
+    if pr.get("type_probes") and not only_harness:
         try:
             tres = typelib.run(prop, tier, os.path.join(work, "types"))
         except vxlib.Infra as e:
@@ -208,7 +210,7 @@ def main(argv):
 
     # ---------------- build probes (C18: the no-alloc configuration must build without the alloc crate) ----------------
     bres = None
-    if pr.get("build_probes"):
+    if pr.get("build_probes") and not only_harness:
         bres = []
         for bp in pr["build_probes"]:
             tdir = os.path.join(work if alt else vxlib.WORK, "build-probe-target")
